@@ -17,10 +17,22 @@ func init() {
 
 var c18Kinds = []string{"success", "success", "remote-denial", "ship-id-mismatch", "cut", "pending", "pending-approve", "pending-cancel", "success-disconnect"}
 
+// kinds in which the application reacts to a state change at once: the direct notification
+// of its API call and the delayed one of the state change are under way together
+var c18QuickKinds = []string{"denial-then-retry", "pending-drop-then-retry", "success-disconnect-then-unregister"}
+
 func setupC18(x *Ctx) {
 	r := newHubRig(x)
 	a, b := r.addNode("A"), r.addNode("B")
-	kind := Pick(x, "kind", c18Kinds)
+	kinds := c18Kinds
+	if x.Feat(FeatQuickRetry) {
+		kinds = append(append([]string(nil), c18Kinds...), c18QuickKinds...)
+	}
+	kind := Pick(x, "kind", kinds)
+	reactAfter := time.Duration(0)
+	if x.Feat(FeatQuickRetry) {
+		reactAfter = []time.Duration{0, 50 * time.Millisecond, 200 * time.Millisecond, 450 * time.Millisecond, 600 * time.Millisecond}[x.Choose("react-after", 5)]
+	}
 	lat := []time.Duration{0, 0, time.Millisecond, 40 * time.Millisecond, 600 * time.Millisecond}[x.Choose("latency", 5)]
 	x.Net.Latency = func(*simnet.Conn) time.Duration { return lat }
 	x.SigAdd("kind="+kind, fmt.Sprintf("lat=%v", lat))
@@ -62,10 +74,12 @@ func setupC18(x *Ctx) {
 		switch kind {
 		case "success", "ship-id-mismatch", "cut", "success-disconnect":
 			b.hub.RegisterRemoteSKI(a.ski)
-		case "remote-denial":
+		case "remote-denial", "denial-then-retry":
 			b.app.mu.Lock()
 			b.app.allowWaiting = false
 			b.app.mu.Unlock()
+		case "success-disconnect-then-unregister":
+			b.hub.RegisterRemoteSKI(a.ski)
 		}
 		b.hub.Start()
 	})
@@ -101,6 +115,44 @@ func setupC18(x *Ctx) {
 					break
 				}
 				simrt.Sleep(time.Millisecond)
+			}
+		}
+		// A's application reacts to the first 'disconnected' of B within half a second
+		waitDisc := func() bool {
+			for i := 0; i < 3000; i++ {
+				for _, e := range x.Events() {
+					if e.Kind == "app-disconnected" && e.A == "A" {
+						return true
+					}
+				}
+				simrt.Sleep(10 * time.Millisecond)
+			}
+			return false
+		}
+		switch kind {
+		case "denial-then-retry":
+			if waitDisc() {
+				simrt.Sleep(reactAfter)
+				x.Probe("api-call-right-after-state-change")
+				a.on("op", func() { a.hub.RegisterRemoteSKI(b.ski) })
+			}
+		case "pending-drop-then-retry":
+			// B waits for its user, then drops the connection; A retries at once
+			simrt.Sleep(2 * time.Second)
+			b.on("op", func() { b.hub.DisconnectSKI(a.ski, "x") })
+			r.eth.hideFrom("A", "B")
+			if waitDisc() {
+				simrt.Sleep(reactAfter)
+				x.Probe("api-call-right-after-state-change")
+				a.on("op", func() { a.hub.RegisterRemoteSKI(b.ski) })
+			}
+		case "success-disconnect-then-unregister":
+			simrt.Sleep(3 * time.Second)
+			b.on("op", func() { b.hub.DisconnectSKI(a.ski, "x") })
+			if waitDisc() {
+				simrt.Sleep(reactAfter)
+				x.Probe("api-call-right-after-state-change")
+				a.on("op", func() { a.hub.UnregisterRemoteSKI(b.ski) })
 			}
 		}
 		if !stable("first") {
@@ -153,10 +205,17 @@ func checkPairingNotifications(x *Ctx, r *hubRig, phase string) bool {
 	prodAt := map[int]time.Duration{} // production time of pairing detail #seq
 	lastSeq := map[key]int{}
 	newest := map[key]int{}
+	lastChangeAt := map[key]time.Duration{} // last time the hub's state for the SKI was set (handshake or API call)
 	for _, e := range x.Events() {
 		if e.Kind == "pairing-produced" {
 			prodAt[e.N%1000000] = e.T
 			newest[key{e.A, e.B}] = e.N % 1000000
+			lastChangeAt[key{e.A, e.B}] = e.T
+		}
+		if e.Kind == "app-pairing" && strings.HasSuffix(e.B, "|direct") {
+			// RegisterRemoteSKI / UnregisterRemoteSKI / CancelPairingWithSKI set the state
+			// themselves and notify synchronously
+			lastChangeAt[key{e.A, strings.TrimSuffix(e.B, "|direct")}] = e.T
 		}
 		if e.Kind != "app-pairing" {
 			continue
@@ -197,7 +256,11 @@ func checkPairingNotifications(x *Ctx, r *hubRig, phase string) bool {
 			cur := current[k]
 			if cur != last[k] {
 				discr := "produced-at-different-instants"
-				if lastKind[k] == "delayed" && prodAt[lastSeq[k]] == prodAt[newest[k]] {
+				// the known finding: the object delivered last is not the newest one, it was
+				// produced at the same instant as the newest and overtaken by it. (If the
+				// newest object itself was delivered last and still differs from what the hub
+				// says, its content is stale - something else.)
+				if lastKind[k] == "delayed" && lastSeq[k] != newest[k] && prodAt[lastSeq[k]] == prodAt[newest[k]] {
 					discr = "produced-at-the-same-instant"
 				}
 				if lastKind[k] == "direct" && last[k] == 0 && cur == 7 {
